@@ -11,7 +11,7 @@ import Mathlib.Algebra.Order.Field.Rat
 /-!
 # Helper lemmas for C20
 -/
-namespace Apd.Props
+namespace Apd.C20L
 open Apd Apd.Oracle
 
 /-! ## factoring `specRound` through `roundAt` -/
@@ -508,4 +508,4 @@ theorem goError_sys (t f g : Cond) (h : (f.sysOverflow || f.sysUnderflow) = true
     cases f.sysOverflow <;> cases f.sysUnderflow <;> simp
   rw [if_pos this]
 
-end Apd.Props
+end Apd.C20L
